@@ -170,7 +170,7 @@ def do_replay(prop, path, verbose=True):
                 for line in r["log"][-6:]:
                     print("  ", json.dumps(line, sort_keys=True)[:600])
             worst = max(worst, 1)
-        elif r["status"] in ("ok", "premise"):
+        elif r["status"] in ("ok", "premise", "skipped"):
             print(f"replay[{which}]: NOT-REPRODUCED (status {r['status']})")
         else:
             print(f"replay[{which}]: HARNESS-ERROR {r['status']}: {r['violation']}")
